@@ -161,7 +161,7 @@ class C12(OptEngineBase):
     PROBES = [
         "early_stop", "stop_at_i1", "hit_max_iter_converged", "hit_max_iter_not_converged", "chi2_increase_seen", "nan_chi2",
         "chi2_exact_zero", "split_ge_3", "clock_backwards", "clock_frozen", "stdout_failed", "clone_after_abort", "clone_checked",
-        "table_parsed", "table_unparsed", "stop_rule_ambiguous", "stdout_none", "str_parsed", "singular_raised_as_error", "called_with_defaults", "interrupted_in_user_code", "nonunit_vertex_quaternion", "user_edit_between_calls", "graph_pickled_or_deepcopied_between_calls", "verbosity_flip_on_natural_failure", "solver_raised_naturally",
+        "table_parsed", "table_unparsed", "stop_rule_ambiguous", "stdout_none", "str_parsed", "singular_raised_as_error", "called_with_defaults", "interrupted_in_user_code", "nonunit_vertex_quaternion", "user_edit_between_calls", "graph_pickled_or_deepcopied_between_calls", "verbosity_flip_on_natural_failure", "solver_raised_naturally", "all_warnings_are_errors",
     ]
 
     def generate(self, rng, tier, index):
@@ -210,7 +210,7 @@ class C12(OptEngineBase):
                 "tol": rng.choice([0.0, 0.0, 1e-12, 1e-9, 1e-6, 1e-4, 1e-4, 1e-3, 1e-2, 1e-1]),
                 "fix_first_pose": rng.random() < 0.35,
                 "verbose": rng.random() < 0.5,
-                "stdout": {"kind": rng.choice(["memory", "memory", "memory", "none", "slow"])},
+                "stdout": {"kind": rng.choice(["memory", "memory", "memory", "none", "slow", "ascii", "cp1252"])},
                 "clock": rng.choice(["steady", "steady", "frozen", "epoch0"]),
                 "clone_check": rng.random() < 0.5,
             })
@@ -218,14 +218,23 @@ class C12(OptEngineBase):
                 ops[-1]["arg_types"] = rng.choice(["np_float64", "np_float32", "np_int64", "int_tol"])
             if rng.random() < 0.12:
                 ops[-1]["call_style"] = "positional"
+            if rng.random() < 0.1:
+                ops[-1]["flag_type"] = rng.choice(["np_bool", "int"])  # fix_first_pose=np.True_ / 1 / 0
             if rng.random() < 0.08:
                 # the documented defaults: optimize() == optimize(tol=1e-4, max_iter=20, fix_first_pose=True, verbose=True)
                 ops[-1].update({"use_defaults": True, "tol": 1e-4, "max_iter": 20, "fix_first_pose": True, "verbose": True})
         case = {"config": config, "workload": workload, "meta": meta, "ops": ops, "faults": []}
-        if rng.random() < 0.6:
+        want_error_all = rng.random() < 0.12
+        if rng.random() < 0.6 or want_error_all:
             dry = self.execute(copy.deepcopy(case), dry=True)
-            menu = {"stdout": STDOUT_FAULTS, "clock": CLOCK_FAULTS, "solver": SOLVER_FAULTS, "usercode": ["interrupt"]}
-            case["faults"] = self.plan_faults(rng, case, dry.counts, menu, max_faults=2)
+            if want_error_all and dry.counts.get("__warnings__", 1) == 0 and config["warnings"]["kind"] == "always":
+                # a host running with -W error: only for cases whose fault-free execution issues no warning at all
+                # (a diverging run makes NumPy warn, and that is not this property's business)
+                config["warnings"] = {"kind": "error_all"}
+                meta["error_all"] = True
+            else:
+                menu = {"stdout": STDOUT_FAULTS, "clock": CLOCK_FAULTS, "solver": SOLVER_FAULTS, "usercode": ["interrupt"]}
+                case["faults"] = self.plan_faults(rng, case, dry.counts, menu, max_faults=2)
         return case
 
     # ------------------------------------------------------------------
@@ -331,6 +340,10 @@ class C12(OptEngineBase):
                     continue
                 n_opt += 1
                 kw = {"tol": op["tol"], "max_iter": op["max_iter"], "fix_first_pose": op["fix_first_pose"]}
+                if op.get("flag_type") == "np_bool":
+                    kw["fix_first_pose"] = np.bool_(op["fix_first_pose"])
+                elif op.get("flag_type") == "int":
+                    kw["fix_first_pose"] = int(op["fix_first_pose"])
                 at = op.get("arg_types")
                 if at == "np_float64":
                     kw["tol"] = np.float64(op["tol"])
@@ -447,8 +460,13 @@ class C12(OptEngineBase):
                 ref_converged = False
                 stopped_early = False
                 bad = None
+                split_raised = None
                 for j in range(1, m + 1):
-                    self._benign_optimize(w, B, j, tol=0.0, max_iter=1, fix_first_pose=op["fix_first_pose"])
+                    try:
+                        self._benign_optimize(w, B, j, tol=0.0, max_iter=1, fix_first_pose=op["fix_first_pose"])
+                    except Exception as e:  # noqa
+                        split_raised = (j, e)
+                        break
                     n_upd = j
                     with w.benign():
                         chis.append(B.calc_chi2())
@@ -491,6 +509,13 @@ class C12(OptEngineBase):
                 def V(cls, msg):
                     res.violate("C12:" + cls, "op %d optimize(tol=%g, max_iter=%d, verbose=%r, fix_first_pose=%r): %s"
                                 % (i, op["tol"], m, op["verbose"], op["fix_first_pose"], msg))
+
+                if split_raised is not None and split_raised[0] > int(rep["num_iterations"] or 0):
+                    split_raised = None  # a piece the call itself never attempted (threshold tie): nothing to compare
+                if split_raised is not None:
+                    V("split-raised", "the call returned normally, but the same run split into single-iteration calls raised %s: %s at its piece %d "
+                      "(splitting does not reproduce the trajectory)" % (type(split_raised[1]).__name__, split_raised[1], split_raised[0]))
+                    break
 
                 # ---- bookkeeping vs the reference rule
                 res.n_checks += 4
@@ -594,7 +619,11 @@ class C12(OptEngineBase):
                     if force_clone:
                         res.probe("clone_after_abort")
                         force_clone = False
-                    rc = self._benign_optimize(w, C, 500 + i, **kw)
+                    try:
+                        rc = self._benign_optimize(w, C, 500 + i, **kw)
+                    except Exception as e:  # noqa
+                        V("clone-raised", "the call returned normally on this graph, but raised %s: %s on a fresh clone of the visible state" % (type(e).__name__, e))
+                        break
                     res.n_checks += 2
                     okr, why = reports_equal(rep, report_of(rc))
                     if not okr:
@@ -608,7 +637,10 @@ class C12(OptEngineBase):
                         break
             if dry:
                 res.counts = w.op_counts()
+                res.counts["__warnings__"] = len(w.warnings)
                 return res
+            if meta.get("error_all"):
+                res.probe("all_warnings_are_errors")
             fsig = ["%s:%s@%s" % (f["seam"], f["kind"], pos_bucket(f["event"], f.get("of", 0))) for f in case.get("faults", [])]
             sig = [meta.get("family"), meta.get("topology"), meta.get("fixed_class"), sig_ops, sorted(fsig)]
             res.faults_planned = len(case.get("faults", []))
